@@ -82,6 +82,12 @@ static Scn make_scenario(const std::string& fam) {
         for (int i = 1; i <= 7; i++) s.init.push_back(kb(10 + i));        // P = 10, 11..17, 20..80 : 15 entries
         int keep = 9 + rng() % 8; for (int i = 9; i <= 16; i++) if (i != keep) s.prune.push_back(kb(10 * i));
         s.uni.push_back(kb(10 * keep)); s.uni.push_back(kb(rng() % 2 ? 18 : 55)); s.uni.push_back(kb(rng() % 2 ? 170 : 85)); if (rng() % 2) s.uni.push_back(kb(200));
+    } else if (fam == "splitdrain") { // interior root over L = 10..80 and a FULL right border R = 90, 91..97, 100..160: a put splits R (100..160 move to the
+        // new border) while another thread removes exactly the moved keys, the last remove deletes the new border (lock_parent of a border
+        // that has just been linked into its parent)
+        for (int i = 0; i < 16; i++) s.init.push_back(kb(10 + 10 * i));
+        for (int i = 1; i <= 7; i++) s.init.push_back(kb(90 + i));
+        s.uni.push_back(kb(98)); for (int i = 9; i < 16; i++) s.uni.push_back(kb(10 + 10 * i));
     } else if (fam == "collapse2") {  // two interior levels: root N -> X = [S (full border), E (one key)], N -> right interior.  Removing E's key collapses X
         // (S takes X's place in N, N's version unchanged) while S splits and a third thread is on its way N -> X -> S
         auto k2 = [](int v) { std::string k; k.push_back((char)(1 + v / 250)); k.push_back((char)(1 + v % 250)); return k; };
@@ -159,7 +165,7 @@ int main(int argc, char** argv) {
             else { long y = rng() % 100; o.kind = y < 30 ? "get" : y < 55 ? "put" : y < 70 ? "uput" : "rem"; o.k = k; o.uniq = o.kind == "uput"; }
             o.t = (int)t + 1; prog[t].push_back(o); } }
         // directed templates (every other scenario of the non-DDL families): patterns that random programs rarely produce
-        if (fam != "ddl" && fam != "pair" && fam != "chain" && fam != "collapse2" && nth >= 2 && (sc % 2 == 1 || directed == 1) && directed != 2 && !scn.init.empty()) {
+        if (fam != "ddl" && fam != "pair" && fam != "chain" && fam != "collapse2" && fam != "splitdrain" && nth >= 2 && (sc % 2 == 1 || directed == 1) && directed != 2 && !scn.init.empty()) {
             auto rd = [&](std::size_t n) { return (std::size_t)(rng() % n); };
             std::vector<std::string> sorted_init = scn.init; std::sort(sorted_init.begin(), sorted_init.end());
             std::string x = scn.uni[rd(scn.uni.size())]; if (std::find(scn.init.begin(), scn.init.end(), x) == scn.init.end()) x = sorted_init[rd(sorted_init.size())];
@@ -223,6 +229,15 @@ int main(int argc, char** argv) {
         }
         // directed=4 (family pair): both borders under the interior root are emptied at the same time by two removers (root collapse while
         // the sibling that becomes root is being deleted itself); a third thread reads / re-inserts
+        if (fam == "splitdrain" && nth >= 2) {
+            auto mk = [&](const char* kind, const std::string& k) { Op o; o.kind = kind; o.k = k; return o; };
+            for (auto& v : prog) v.clear();
+            prog[0].push_back(mk("put", scn.uni[0]));
+            std::vector<std::string> mv(scn.uni.begin() + 1, scn.uni.end()); if (rng() % 2) std::reverse(mv.begin(), mv.end()); else if (rng() % 2) std::shuffle(mv.begin(), mv.end(), rng);
+            for (auto& k : mv) prog[1].push_back(mk("rem", k));
+            if (nth > 2) prog[2].push_back(mk(rng() % 2 ? "get" : "put", mv[rng() % mv.size()]));
+            for (long t = 0; t < nth; t++) for (auto& o : prog[t]) o.t = (int)t + 1;
+        }
         if (fam == "collapse2" && nth >= 3) {
             auto mk = [&](const char* kind, const std::string& k) { Op o; o.kind = kind; o.k = k; return o; };
             for (auto& v : prog) v.clear();
